@@ -19,17 +19,8 @@ def write_real_file(ctx, b, workdir, name, cfg, entries):
 
 def mktable_rec(path, ents):
     """trace record declaring a file built by the reference encoder: ents = [(key, val bytes)]"""
-    return {"e": "MkTable", "path": path,
-            "ents": [{"k": list(k), "v": core.val2ints(v.hex()) if len(v) <= 256 else
-                      [-1, len(v)] + [int(("%016x" % fnv64(v))[i:i + 4], 16) for i in range(0, 16, 4)]} for k, v in ents]}
-
-
-def fnv64(b):
-    h = 1469598103934665603
-    for x in b:
-        h ^= x
-        h = (h * 1099511628211) & 0xFFFFFFFFFFFFFFFF
-    return h
+    from . import projection as P
+    return {"e": "MkTable", "path": path, "ents": [{"k": list(k), "v": P.vrec(v)} for k, v in ents]}
 
 
 def model_graph(ctx, workdir, F, targets, bounds, fixf1=True, dump=True, name="MCI", workers=4, timeout=900):
